@@ -19,6 +19,16 @@ def set_keys(k):
     KEYS.update(k)
 
 
+BASE_SECP = ["k1", "k2", "k3", "k4"]
+BASE_ED = ["e1", "e2"]
+
+
+def set_pool(names):
+    """extend the signer pools with further (seed-determined) keys; the first entries stay the fixed test keys"""
+    SECP_SIGNERS[:] = BASE_SECP + [n for n in names if n.startswith("k:")]
+    ED_SIGNERS[:] = BASE_ED + [n for n in names if n.startswith("e:")]
+
+
 def scheme_of(signer):
     return "secp" if signer.startswith("k") else "ed"
 
@@ -1298,6 +1308,15 @@ def gen_api(rng, n):
         cand.append(rand_bytes(rng, ln))
     for b in cand:
         steps.append({"op": "decpub", "bytes": b})
+    # the verification primitive on valid and tampered (message, signature) pairs
+    for signer in SECP_SIGNERS + ED_SIGNERS:
+        msg = rand_bytes(rng, rng.choice([0, 1, 31, 32, 33, 150, 300]))
+        variants = [{}, {"tweak": "flip", "bit": rng.randrange(512)}, {"len": 63}, {"len": 65}, {"len": 0}, {"len": 128}, {"raw": rand_bytes(rng, 64)},
+                    {"over": rand_bytes(rng, 20)}, {"raw": [0] * 64}, {"raw": [255] * 64}]
+        if scheme_of(signer) == "secp":
+            variants += [{"tweak": "highs"}, {"tweak": "zero_r"}, {"tweak": "zero_s"}]
+        for v in variants:
+            steps.append({"op": "verifyraw", "signer": signer, "msg": msg, "sig": v})
     for _ in range(n):
         steps.append({"op": "keygen", "scheme": "secp"})
         steps.append({"op": "keygen", "scheme": "ed"})
